@@ -49,8 +49,10 @@ def showSt (s : St) : String :=
     | none => "-"
   let inflight := (s.tasks.filter (fun t => t.pc = .inStart ∨ t.pc = .inFinish)).length
   let alive := (s.tasks.filter (fun t => t.pc ≠ .done)).length
+  -- unreported session ends: `_on_disconnect` tasks that have not reached `on_disconnect` yet (the `pendD` of the proofs)
+  let pd := (s.tasks.filter (fun t => (match t.kind with | .disc _ => true | _ => false) && (t.pc == .running || t.pc == .lockWait))).length
   s!"st={showState s.state} acc={b s.accept} stopped={b s.stopped} zc={b s.zcListening} tries={s.tries} timer={timer} " ++
-  s!"locked={b s.locked} waiters={s.waiters.length} cli={showCli s.cli} inflight={inflight} alive={alive} ready={s.ready.length}"
+  s!"locked={b s.locked} waiters={s.waiters.length} cli={showCli s.cli} inflight={inflight} alive={alive} ready={s.ready.length} pd={pd}"
 
 def rcStep (s : St) (ws : List String) : St × String :=
   match ws with
